@@ -6,7 +6,7 @@ from hypothesis import strategies as st
 import gen
 import model as M
 import oracle
-from common import ModelRun, model_classes, cx, pipeline_guard
+from common import ModelRun, model_classes, cx, pipeline_guard, chi_floor
 from drive import Result
 
 RULE = ("Hypothesis generates models with N<=4 modes (quick; <=5 thorough) incl. non-interacting, atomic-limit and particle-hole "
@@ -122,19 +122,20 @@ def execute(case, ctx):
         for t, (n1, n2, n3) in enumerate(triples):
             r, sc = ref.chi4(i, j, k, l, n1, n2, n3, return_scale=True)
             S = beta ** 3 * sc
-            tol = TOL * (abs(r) + S) + 1e-13
+            fl = chi_floor(beta, ref.N)
+            tol = TOL * (abs(r) + S) + fl
             v = od[t]
             if S > 0:
                 maxratio = max(maxratio, abs(v - r) / (abs(r) + S))
             if not abs(v - r) <= tol:
                 return fail("chi_%d%d%d%d(%d,%d,%d) on demand = %r, reference %r, |diff| %.3e > tol %.3e" % (i, j, k, l, n1, n2, n3, v, r, abs(v - r), tol),
                             "mismatch-ref", {"triple": [n1, n2, n3]})
-            if not abs(odZ[t] - v) <= 1e-12 * (abs(v) + 1e-3 * S) + 1e-15:
+            if not abs(odZ[t] - v) <= 1e-12 * (abs(v) + 1e-3 * S) + fl:
                 return fail("two objects for the same component disagree: %r vs %r" % (odZ[t], v), "mismatch-objects")
             if tX:
-                if not abs(tX[t] - v) <= 1e-12 * (abs(v) + 1e-3 * S) + 1e-15:
+                if not abs(tX[t] - v) <= 1e-12 * (abs(v) + 1e-3 * S) + fl:
                     return fail("table(clear=false)[%d] = %r but on-demand %r" % (t, tX[t], v), "mismatch-table")
-                if not abs(tY[t] - v) <= 1e-12 * (abs(v) + 1e-3 * S) + 1e-15:
+                if not abs(tY[t] - v) <= 1e-12 * (abs(v) + 1e-3 * S) + fl:
                     return fail("table(clear=true)[%d] = %r but on-demand %r" % (t, tY[t], v), "mismatch-table-clear")
             elif abs(r) > tol:
                 return fail("component reported vanishing but reference is %r" % r, "vanishing")
@@ -150,7 +151,7 @@ def execute(case, ctx):
                 if not (np.isfinite(v) and np.isfinite(tX[tt]) and np.isfinite(tY[tt])):
                     classes.append("cz-on-a-pole")     # generic complex frequencies may sit exactly on a pole: not judged
                     continue
-                m = 1e-9 * max(abs(v), abs(tX[tt])) + 1e-12 * (Smax + 1.0)
+                m = 1e-9 * max(abs(v), abs(tX[tt])) + 1e-12 * (Smax + 1.0) + chi_floor(beta, ref.N)
                 if not (abs(tX[tt] - v) <= m and abs(tY[tt] - v) <= m):
                     return fail("complex-frequency table entry %d: %r / %r vs on-demand %r" % (t, tX[tt], tY[tt], v), "mismatch-table-cz")
         if anynz:
